@@ -48,7 +48,9 @@ RULE = ('corpus first, then random cases over ops {collect_charge (scalar/vector
         'sequences of 2..4 Bayer calls on one frame shape with varying oversample/pattern/flatten, histories of 2..4 '
         'collect_charge/collect_charge_bayer calls sharing ONE set of efficiency objects (Spectrum in nm/um/angstrom/m, cube '
         'wavelengths on the spectrum end points in its own unit; spectrum compared exactly before/after every call), histories '
-        'of 2..4 adc calls sharing one frame and one gain object}; frames as float64/float32/int64/int32/uint16/uint8, '
+        'of 2..4 adc calls on one frame object (shared or per-call gain objects, unity gain in the forms 1 / 1.0 / array(1.0) / '
+        '[1.0] / ones frame / ones cube), the cross product of 8 gain forms x capacity None/given x frame float64/float32/int64/'
+        'nested list digitised three times in a row and judged against the original frame}; frames as float64/float32/int64/int32/uint16/uint8/list, '
         'array_likes as ndarray/list/tuple, scalars as float/int/0-d array, dtype as str/type/np.dtype, capacity as Python or '
         'numpy scalar, electron counts whose powers a sloppy pow() rounds wrongly; thorough adds all '
         '81 2x2 patterns x oversample 1..5; non-trivial = more than one wavelength / pattern or oversample > 1 / '
